@@ -246,6 +246,42 @@ def _lrepr_nil(_: None, **__) -> str:
     return "nil"
 
 
+_STR_ESCAPES = {
+    '"': '\\"',
+    "\\": "\\\\",
+    "\a": "\\a",
+    "\b": "\\b",
+    "\f": "\\f",
+    "\n": "\\n",
+    "\r": "\\r",
+    "\t": "\\t",
+    "\v": "\\v",
+}
+_HEX_DIGITS = frozenset("0123456789abcdefABCDEF")
+
+
+def _escape_str(s: str) -> str:
+    """Escape a string such that the reader reads back exactly `s`.
+
+    Everything outside of printable ASCII is written as a `\\uXXXX` or `\\UXXXXXXXX`
+    escape. The reader consumes every hex digit following such an escape, so a hex digit
+    character directly after one is written as an escape as well."""
+    parts = []
+    after_unicode_escape = False
+    for ch in s:
+        if (esc := _STR_ESCAPES.get(ch)) is not None:
+            parts.append(esc)
+            after_unicode_escape = False
+        elif " " <= ch <= "~" and not (after_unicode_escape and ch in _HEX_DIGITS):
+            parts.append(ch)
+            after_unicode_escape = False
+        else:
+            code = ord(ch)
+            parts.append(f"\\u{code:04x}" if code <= 0xFFFF else f"\\U{code:08x}")
+            after_unicode_escape = True
+    return "".join(parts)
+
+
 @lrepr.register(str)
 def _lrepr_str(
     o: str, human_readable: bool = False, print_readably: bool = PRINT_READABLY, **_
@@ -254,8 +290,7 @@ def _lrepr_str(
         return o
     if print_readably is None or print_readably is False:
         return o
-    escaped = o.encode("unicode_escape").replace(b'"', rb"\"").decode("utf-8")
-    return f'"{escaped}"'
+    return f'"{_escape_str(o)}"'
 
 
 @lrepr.register(list)
